@@ -132,14 +132,23 @@ func (s *Session) simpleErrVar(pkgPath, name string) (string, bool) {
 					}
 					for k, v := range vs.Values {
 						ce, ok := v.(*ast.CallExpr)
-						if !ok || len(ce.Args) != 1 {
+						if !ok || (len(ce.Args) != 1 && len(ce.Args) != 3) {
 							continue
 						}
 						sel, ok := ce.Fun.(*ast.SelectorExpr)
+						if ok && sel.Sel.Name == "Register" && len(ce.Args) == 3 {
+							// X = errorsmod.Register(codespace, code, "description")
+							if lit, isLit := ce.Args[2].(*ast.BasicLit); isLit && lit.Kind == token.STRING {
+								if txt, err := strconv.Unquote(lit.Value); err == nil {
+									tbl[vs.Names[k].Name] = "\x00reg|" + exprText(ce.Args[0]) + "|" + exprText(ce.Args[1]) + "|" + txt
+								}
+							}
+							continue
+						}
 						if !ok || sel.Sel.Name != "New" {
 							continue
 						}
-						if x, ok := sel.X.(*ast.Ident); !ok || x.Name != "errors" {
+						if x, ok := sel.X.(*ast.Ident); !ok || x.Name != "errors" || len(ce.Args) != 1 {
 							continue
 						}
 						if lit, ok := ce.Args[0].(*ast.BasicLit); ok && lit.Kind == token.STRING {
@@ -154,4 +163,94 @@ func (s *Session) simpleErrVar(pkgPath, name string) (string, bool) {
 	}
 	msg, ok := tbl[name]
 	return msg, ok
+}
+
+var getterMu sync.Mutex
+
+// simpleGetter recognises, in the dependency's own source (parsed on every run), the generated
+// accessor shape
+//
+//	func (m *T) GetF() X { if m != nil { return m.F }; return <zero> }
+//
+// and returns the field name F.
+func (s *Session) simpleGetter(pkgPath, recv, method string) (string, bool) {
+	getterMu.Lock()
+	defer getterMu.Unlock()
+	if s.getters == nil {
+		s.getters = map[string]map[string]string{}
+	}
+	tbl, ok := s.getters[pkgPath]
+	if !ok {
+		tbl = map[string]string{}
+		s.getters[pkgPath] = tbl
+		dir := s.PkgDirs[pkgPath]
+		matches, _ := filepath.Glob(filepath.Join(dir, "*.go"))
+		fset := token.NewFileSet()
+		for _, f := range matches {
+			if strings.HasSuffix(f, "_test.go") || dir == "" {
+				continue
+			}
+			af, err := parser.ParseFile(fset, f, nil, parser.SkipObjectResolution)
+			if err != nil {
+				continue
+			}
+			for _, d := range af.Decls {
+				fd, ok := d.(*ast.FuncDecl)
+				if !ok || fd.Recv == nil || len(fd.Recv.List) != 1 || fd.Body == nil || len(fd.Body.List) != 2 || len(fd.Recv.List[0].Names) != 1 {
+					continue
+				}
+				star, ok := fd.Recv.List[0].Type.(*ast.StarExpr)
+				if !ok {
+					continue
+				}
+				tn, ok := star.X.(*ast.Ident)
+				if !ok {
+					continue
+				}
+				rn := fd.Recv.List[0].Names[0].Name
+				ifs, ok := fd.Body.List[0].(*ast.IfStmt)
+				if !ok || ifs.Init != nil || ifs.Else != nil || len(ifs.Body.List) != 1 {
+					continue
+				}
+				cond, ok := ifs.Cond.(*ast.BinaryExpr)
+				if !ok || cond.Op != token.NEQ {
+					continue
+				}
+				cx, ok1 := cond.X.(*ast.Ident)
+				cy, ok2 := cond.Y.(*ast.Ident)
+				if !ok1 || !ok2 || cx.Name != rn || cy.Name != "nil" {
+					continue
+				}
+				ret, ok := ifs.Body.List[0].(*ast.ReturnStmt)
+				if !ok || len(ret.Results) != 1 {
+					continue
+				}
+				sel, ok := ret.Results[0].(*ast.SelectorExpr)
+				if !ok {
+					continue
+				}
+				sx, ok := sel.X.(*ast.Ident)
+				if !ok || sx.Name != rn {
+					continue
+				}
+				if _, ok := fd.Body.List[1].(*ast.ReturnStmt); !ok {
+					continue
+				}
+				tbl[tn.Name+"."+fd.Name.Name] = sel.Sel.Name
+			}
+		}
+	}
+	f, ok := tbl[recv+"."+method]
+	return f, ok
+}
+
+// exprText renders an identifier or basic literal argument ("" for anything else).
+func exprText(e ast.Expr) string {
+	switch x := e.(type) {
+	case *ast.Ident:
+		return x.Name
+	case *ast.BasicLit:
+		return x.Value
+	}
+	return ""
 }
